@@ -72,6 +72,8 @@ Definition run_case (x : sexp) : sexp :=
       | _ => bad end
     else if tag_is "front" cmd then
       match args with [v] => run_front v | _ => bad end
+    else if tag_is "run" cmd then
+      match args with [nc; v] => run_pipeline nc v | _ => bad end
     else if tag_is "type_string" cmd then
       match args with
       | [nc; ax; t] =>
